@@ -258,4 +258,18 @@ theorem mergeSide_at (f : EVal → EVal → EVal) (a b m : Bnd) (h : mergeSide f
     (hy : (normalize b).at i j = some y) : m.at i j = some (f x y) :=
   mergeN_at f (normalize a) (normalize b) m (by rwa [← mergeSide_eq]) i j x y hx hy
 
+/-- normalisation only extends where a side is defined: the values it denotes stay -/
+theorem normalize_at (b : Bnd) (i j : Nat) (v : EVal) (h : b.at i j = some v) :
+    (normalize b).at i j = some v := by
+  cases b with
+  | vec vs =>
+    match vs, h with
+    | [], h => simp [Bnd.at] at h
+    | [x], h =>
+      cases j with
+      | zero => simpa [normalize, Bnd.at] using h
+      | succ j => simp [Bnd.at] at h
+    | x :: y :: rest, h => exact h
+  | _ => exact h
+
 end RtcVerif.Merge
